@@ -15,6 +15,7 @@ func runEnumerated(t *testing.T, property, check, rule string, n int, mk func(i 
 	st := NewStats(property, check, rule)
 	st.Exhaustive = true
 	defer st.Flush()
+	startWatchdog()
 	runSeeds(t, property, check, st)
 	fn := replayers[check]
 	shard, nshards := shardInfo()
@@ -25,7 +26,10 @@ func runEnumerated(t *testing.T, property, check, rule string, n int, mk func(i 
 		c := mk(i)
 		c.Property, c.Check = property, check
 		st.Case()
-		if msg := safeRun(fn, c, st); msg != "" {
+		enterCase(c)
+		msg := safeRun(fn, c, st)
+		leaveCase()
+		if msg != "" {
 			Fail(t, c, "%s", msg)
 		}
 	}
